@@ -91,7 +91,7 @@ def plan(tier, seed):
 
 def exhaustive(tier, merged):
     if tier == "quick":
-        return ("fault sequences: all over 5 fault kinds of length 0..n_retries+2 for n_retries 0..2 (+ a sample for 3) x 5 "
+        return ("fault sequences: all over 5 fault kinds of length 0..3 for n_retries 0..3 (+ a sample of lengths 4, 5) x 5 "
                 "final payloads; crash points: every 4th LINE event and every CALL/C_RETURN and traced syscall of one "
                 "configuration; flag table complete")
     return ("fault sequences: all 4687 over 5 fault kinds of length 0..n_retries+2 for n_retries 0..3 x 5 final payloads; "
@@ -106,7 +106,8 @@ def fault_cases(tier, rng):
         for f in range(0, nr + 3):
             for seq in itertools.product(FAULTS, repeat=f):
                 for fin in FINALS:
-                    if tier == "quick" and nr == 3 and rng.random() > 0.1:
+                    # quick: every sequence of up to 3 faults, a sample of the longer ones (thorough: all)
+                    if tier == "quick" and f >= 4 and rng.random() > (0.12 if f == 4 else 0.02):
                         continue
                     out.append((nr, list(seq), fin))
     return out
